@@ -586,6 +586,7 @@ func checkC05(c *run.Ctx) {
 	c.Phase("largeSA", func() { c05Large(c, kindSA, "largeSA") })
 	c.Phase("largeSS", func() { c05Large(c, kindSS, "largeSS") })
 	c.Phase("nested-equal", func() { c05NestedEqual(c) })
+	c.Phase("enc-error", func() { c05EncError(c) })
 	c.Finish("exploration",
 		"phase 1: breadth-first enumeration of every operation (set, replace over all old/new pairs, delete, four in-callback rename patterns over keys a,b,c) from every slot layout (key or tombstone, incl. stale tombstone keys, per slot, read through the verif hook) reachable within the history-length bound, from three kinds of empty start map; phase 2: long random histories over alphabets of 4, 16 and 200 keys with delete-heavy phases; after every operation every observer is compared with a list-of-pairs model; phase 3: maps of 1022 to 9000 keys emptied in bulk in five patterns (compactions of large storage) and written to again. distinct_nontrivial counts distinct (ordered key list, slot layout) pairs with at least one live key that were observed",
 		map[string]any{"exhaustive": false},
@@ -972,4 +973,80 @@ func c05Random[V any](c *run.Ctx, k omKind[V], phase string) {
 			c.Sample(map[string]any{"phase": phase, "alphabet": len(alphabet), "first_ops": histString(hist), "final_keys": p.Len(), "final_layout_slots": len(m.VerifSlots())})
 		}
 	})
+}
+
+// c05Unencodable is a value that refuses to be encoded, by either encoder.
+type c05Unencodable struct{}
+
+func (c05Unencodable) MarshalYAML() (any, error) { return nil, errors.New("c05: value refuses YAML") }
+func (c05Unencodable) MarshalJSON() ([]byte, error) {
+	return nil, errors.New("c05: value refuses JSON")
+}
+
+// c05EncError: a map one of whose values cannot be encoded (directly, inside an inner ordered map, inside an
+// inner ordered map held by a list) either fails to encode or encodes every pair; an output without an
+// error that lacks the pair disagrees with Len, Get and Range, which still report it.
+func c05EncError(c *run.Ctx) {
+	n := 0
+	for size := 1; size <= 7; size++ {
+		for pos := 0; pos < size; pos++ {
+			for mode := 0; mode < 3; mode++ {
+				caseID := run.CaseID("encerr", n)
+				n++
+				m := ordered.NewMap[string, any](0)
+				for i := 0; i < size; i++ {
+					if i != pos {
+						m.Set(fmt.Sprintf("k%d", i), i)
+						continue
+					}
+					switch mode {
+					case 0:
+						m.Set("badkey", c05Unencodable{})
+					case 1:
+						in := ordered.NewMap[string, any](0)
+						in.Set("before", 1)
+						in.Set("badkey", c05Unencodable{})
+						in.Set("after", 2)
+						m.Set("inner", in)
+					default:
+						in := ordered.NewMap[string, any](0)
+						in.Set("badkey", c05Unencodable{})
+						in.Set("after", 2)
+						m.Set("list", []any{1, in, "x"})
+					}
+				}
+				var yb, jb []byte
+				var yerr, jerr, derr error
+				var direct any
+				pi := run.Guard(func() {
+					direct, derr = m.MarshalYAML()
+					yb, yerr = yaml.Marshal(m)
+					jb, jerr = json.Marshal(m)
+				})
+				c.Eval(1)
+				c.Feature(size, pos, mode)
+				if pi != nil {
+					c.Violation(caseID, map[string]any{"what": "panic while encoding a map with an unencodable value: " + pi.Value, "stack": pi.Stack})
+					continue
+				}
+				if mode == 0 && derr == nil {
+					if nd, ok := direct.(*yaml.Node); ok && len(nd.Content) != 2*m.Len() {
+						c.Violation(caseID, map[string]any{"what": fmt.Sprintf("MarshalYAML returned no error and %d of %d pairs (value %d of %d cannot be encoded)", len(nd.Content)/2, m.Len(), pos, size)})
+					}
+				}
+				if yerr == nil && !strings.Contains(string(yb), "badkey") {
+					c.Violation(caseID, map[string]any{"what": fmt.Sprintf("yaml.Marshal returned no error and an output without the pair whose value cannot be encoded (mode %d, position %d of %d)", mode, pos, size), "output": string(yb)})
+				}
+				if jerr == nil && !strings.Contains(string(jb), "badkey") {
+					c.Violation(caseID, map[string]any{"what": fmt.Sprintf("json.Marshal returned no error and an output without the pair whose value cannot be encoded (mode %d, position %d of %d)", mode, pos, size), "output": string(jb)})
+				}
+				if yerr != nil {
+					c.Count("yaml_encodings_refused_with_an_error", 1)
+				}
+				if jerr != nil {
+					c.Count("json_encodings_refused_with_an_error", 1)
+				}
+			}
+		}
+	}
 }
